@@ -82,7 +82,8 @@ def cli_case(case):
             ids = ["pixee:python/numpy-nan-equality", "pixee:python/fix-assert-tuple"]
         elif kind == "mixed":
             cms = rng.sample(case["pool"], rng.randint(1, 4))
-            files, _ = e2e.seed_project(rng, seeds, cms, rng.randint(2, 6), rng.choice([None, "requirements.txt", "setup.cfg", "pyproject.toml"]))
+            files, _ = e2e.seed_project(rng, seeds, cms, rng.randint(2, 6), rng.choice([None, "requirements.txt", "setup.cfg", "pyproject.toml"]),
+                                        manifest_dir=rng.choice(["", "", "backend/"]))
             files["bad.py"] = "def (:\n"
             files["uni.py"] = "# -*- coding: utf-8 -*-\nnom = 'héllo wörld ✓'\nimport numpy as np\nif nom == np.nan:\n    pass\n"
             e2e.write_project(proj, files)
